@@ -1,6 +1,9 @@
 """C10: annotated records survive the GenBank and the JSON round trip.
 
-Four streams ((d) qualifier codecs: aStool 'externally annotated by: <tool>', gene function text form through the model
+Five streams ((e) read path of single features through Record.from_biopython - misc_feature prefilter, location_bridges_origin
+with / without allow_reversing, add_gene's exon order - and the order of CDS features through add_cds_feature: fn 13-15, see
+read_path_cases)
+Four older streams ((d) qualifier codecs: aStool 'externally annotated by: <tool>', gene function text form through the model
 of _parse_format, sec_met domain label, number lists - fn 7-12; see qualifier_codec_cases):
  (a) codec: str(location) / location_from_string / str(int) / int(str) against the Coq model (fn 1-4);
  (b) skeleton: real Records holding protoclusters, subregions, candidate clusters and regions go through
@@ -923,6 +926,8 @@ def gen_whole_record(rng, counts):
         except Exception as exc:  # pylint: disable=broad-except
             counts["gen_sub_" + type(exc).__name__] += 1
     enrich(rng, record, genes, counts, n, circular)
+    add_alternative_transcripts(rng, record, n, circular, counts, genes)
+    add_generic_features(rng, record, n, circular, counts, genes)
     return record
 
 
@@ -1041,6 +1046,218 @@ def enrich(rng, record, genes, counts, n, circular):
             counts["gen_sideload_" + type(exc).__name__] += 1
 
 
+# ---------------------------------------------------------------- (c'') generic features, alternative transcripts
+
+# every feature type that Record.add_biopython_feature does not dispatch to a class of its own ends up as a plain Feature;
+# "misc_feature" additionally passes the NCBI-Pfam prefilter of Record.from_biopython, "source" becomes a Source, "gene" a
+# Gene, "CDS_motif" without aSTool an ExternalCDSMotif.  Qualifier values as Biopython's parser delivers them (a
+# qualifier without value, /pseudo, is [""])
+GENERIC_TYPES = [
+    ("misc_feature", [{}, {"db_xref": ["CDD:12345"]}, {"inference": ["protein motif:PFAM:PF00109"]}]),
+    ("misc_feature", [{}]),
+    ("regulatory", [{"regulatory_class": ["promoter"]}, {"regulatory_class": ["ribosome_binding_site"]}]),
+    ("mobile_element", [{"mobile_element_type": ["insertion sequence:IS1"]}]),
+    ("repeat_region", [{"rpt_type": ["inverted"]}, {"rpt_family": ["REP"], "rpt_unit_seq": ["acgtacgt"]}]),
+    ("tRNA", [{"product": ["tRNA-Ala"]}, {"product": ["tRNA-Sec"], "pseudo": [""]}]),
+    ("rRNA", [{"product": ["16S ribosomal RNA"]}]),
+    ("ncRNA", [{"ncRNA_class": ["SRP_RNA"]}]),
+    ("misc_RNA", [{}]),
+    ("sig_peptide", [{}]),
+    ("stem_loop", [{}]),
+    ("rep_origin", [{"direction": ["both"]}]),
+    ("misc_binding", [{"bound_moiety": ["cobalamin"]}]),
+    ("CDS_motif", [{}]),
+]
+
+
+def gen_feature_location(rng, n, circular, strand):
+    """ -> (location, shape).  Shapes: single; multi (2-4 exons in transcription order: ascending on the forward strand,
+        descending on the reverse strand, as Biopython reads join() / complement(join())); multi_other (the other exon
+        order: what location_bridges_origin calls origin-bridging); span (circular only: over the origin, forward
+        join(n-a..n,1..b), reverse complement(join(n-a..n,1..b)) = parts [0:b], [n-a:n] - the way NCBI writes it and the way
+        antiSMASH builds it), optionally with further exons on either side; span_other (the same exons in the other order,
+        which does not cross the origin) """
+    from antismash.common.secmet.locations import FeatureLocation as FL, CompoundLocation as CL
+    r = rng.random()
+    if r < 0.35:
+        length = rng.choice([1, 3, 30, 90, rng.randint(1, n // 3)])
+        start = rng.randrange(0, n - length + 1) if rng.random() < 0.9 else rng.choice([0, n - length])
+        return FL(start, start + length, strand), "single"
+    if circular and r < 0.70:
+        a, b = rng.choice([1, 3, 10, 40, 50]), rng.choice([1, 3, 10, 40])
+        exons = [(n - a, n), (0, b)]
+        if rng.random() < 0.4:        # more exons before the origin
+            exons.insert(0, (n - a - 30, n - a - rng.choice([1, 10])))
+            if rng.random() < 0.3:
+                exons.insert(0, (n - a - 60, n - a - 40))
+        if rng.random() < 0.4:        # and after it
+            exons.append((b + rng.choice([1, 5]), b + 20))
+        parts = [FL(s, e, strand) for s, e in exons]
+        shape = "span"
+        if strand == -1:
+            parts.reverse()
+        if len(parts) == 2 and rng.random() < 0.3:
+            # (with more exons the other order is refused by split_origin_bridging_location inside Feature.__lt__: such a
+            # record cannot be written at all - see notes, observation 11)
+            parts.reverse()
+            shape = "span_other"
+        return CL(parts), shape
+    count = rng.choice([2, 2, 3, 4])
+    cuts = sorted(rng.sample(range(1, n - 1), 2 * count))
+    exons = [(cuts[2 * i], cuts[2 * i + 1]) for i in range(count)]
+    if rng.random() < 0.15:           # adjacent exons
+        exons[1] = (exons[0][1], exons[1][1])
+    parts = [FL(s, e, strand) for s, e in exons]
+    shape = "multi"
+    if strand == -1:
+        parts.reverse()
+    if len(parts) == 2 and rng.random() < 0.3:
+        parts.reverse()
+        shape = "multi_other"
+    return CL(parts), shape
+
+
+def add_generic_features(rng, record, n, circular, counts, genes):
+    """ generic (non-antiSMASH) features of every type Record.from_biopython treats specially or passes through, both
+        strands, all shapes of gen_feature_location; a few share their location with a gene or with each other """
+    from Bio.SeqFeature import SeqFeature
+    from antismash.common.secmet.features.source import Source
+    from antismash.common.secmet.locations import FeatureLocation as FL
+    uid = 0
+    made = []
+    r = rng.random()
+    try:
+        if r < 0.5:
+            record.add_feature(Source(FL(0, n, 1), qualifiers={"organism": ["Streptomyces sp. X"], "mol_type": ["genomic DNA"],
+                                                              "db_xref": ["taxon:1931"]}))
+            counts["generic_source"] += 1
+        elif r < 0.65:
+            cut = rng.randrange(1, n - 1)
+            record.add_feature(Source(FL(0, cut, 1), qualifiers={"organism": ["A"], "note": ["uid=src1"]}))
+            record.add_feature(Source(FL(cut, n, 1), qualifiers={"organism": ["B"], "note": ["uid=src2"]}))
+            counts["generic_two_sources"] += 1
+    except Exception as exc:  # pylint: disable=broad-except
+        counts["gen_source_" + type(exc).__name__] += 1
+    for _ in range(rng.choice([2, 3, 4, 6])):
+        ftype, qualifier_sets = rng.choice(GENERIC_TYPES)
+        strand = rng.choice([1, -1])
+        if made and rng.random() < 0.12:
+            location, shape = rng.choice(made), "shared_with_generic"        # identical location, other type
+        elif genes and rng.random() < 0.12:
+            location, shape = rng.choice(genes).location, "shared_with_cds"
+        else:
+            location, shape = gen_feature_location(rng, n, circular, strand)
+        if not circular and len(location.parts) > 1 and location.start == 0 and location.end == n:
+            counts["generic_skipped_full_span_on_linear"] += 1     # refused by Record.from_biopython on purpose
+            continue
+        uid += 1
+        try:
+            qualifiers = {key: list(val) for key, val in rng.choice(qualifier_sets).items()}
+            if rng.random() < 0.15:
+                ftype = "gene"
+                qualifiers = {"gene": [f"gn{uid}"]}
+                if rng.random() < 0.5:
+                    qualifiers["locus_tag"] = [f"gl{uid}"]
+            qualifiers["note"] = [f"uid=gf{uid}"]
+            if rng.random() < 0.3:
+                qualifiers["note"].append(rng.choice(["Pfam-A hit", "a note", awkward_text(rng, long_ok=False)]))
+            # the way the pipeline gets them: a parsed SeqFeature handed to the record
+            record.add_biopython_feature(SeqFeature(location, type=ftype, qualifiers=qualifiers))
+            made.append(location)
+            counts[f"generic_{ftype}"] += 1
+            counts[f"generic_shape_{shape}_{'fwd' if location.strand == 1 else 'rev'}"] += 1
+            if location.crosses_origin():
+                counts["generic_crosses_origin"] += 1
+        except Exception as exc:  # pylint: disable=broad-except
+            counts["gen_generic_" + type(exc).__name__] += 1
+
+
+def add_alternative_transcripts(rng, record, n, circular, counts, genes):
+    """ splice variants: two or three CDS features (and their gene) sharing the first exon start and the last exon end
+        with different inner exons; on circular records also over the origin; both strands """
+    from antismash.common.secmet.features import CDSFeature, Gene
+    from antismash.common.secmet.locations import FeatureLocation as FL, CompoundLocation as CL
+    if rng.random() > 0.35:
+        return
+    strand = rng.choice([1, -1])
+    tag = f"alt{len(genes)}"
+    if circular and rng.random() < 0.4:
+        a = 3 * rng.randint(14, 30)
+        b = 3 * rng.randint(4, 12)
+        # pre-origin exons (n-a .. n) differ inside, the post-origin exon is shared
+        first = (n - a, n - a + 12)
+        last_pre = (n - 9, n)
+        inner = [(n - a + 18, n - a + 24), (n - a + 27, n - a + 33)]
+        variants = [[first, inner[0], last_pre, (0, b)], [first, last_pre, (0, b)], [first, inner[1], last_pre, (0, b)]]
+        shape = "span"
+    else:
+        start = rng.randrange(0, n - 200)
+        exon = lambda off, length: (start + off, start + off + length)  # noqa: E731
+        first, last = exon(0, 3 * rng.randint(3, 8)), exon(150, 3 * rng.randint(3, 8))
+        variants = [[first, exon(60, 30), last], [first, last], [first, exon(60, 15), exon(105, 18), last],
+                    [first, exon(90, rng.choice([33, 33, 33, 30])), last]]      # (30: same total length = equal sort keys)
+        shape = "line"
+    rng.shuffle(variants)
+    variants = variants[:rng.choice([2, 2, 3])]
+    try:
+        if rng.random() < 0.6:
+            hull = [FL(s, e, strand) for s, e in ([variants[0][0], variants[0][-1]])]
+            if strand == -1:
+                hull.reverse()
+            record.add_gene(Gene(CL(hull), locus_tag=tag))
+        for i, exons in enumerate(variants):
+            parts = [FL(s, e, strand) for s, e in exons]
+            if strand == -1:
+                parts.reverse()
+            location = CL(parts)
+            cds = CDSFeature(location, translation="M" + "A" * max(1, len(location) // 3 - 2), locus_tag=f"{tag}_t{i + 1}")
+            record.add_cds_feature(cds)
+            genes.append(cds)
+        counts[f"alternative_transcripts_{shape}_{'fwd' if strand == 1 else 'rev'}"] += 1
+    except Exception as exc:  # pylint: disable=broad-except
+        counts["gen_alt_" + type(exc).__name__] += 1
+
+
+# ---- the sort key of Feature.__lt__ as the property needs it, written independently of the implementation: (start,
+# total exon length), the start of an origin-crossing location being (lowest start - highest end) of its pre-origin exons
+
+def oracle_bridges(parts, strand):
+    if len(parts) < 2:
+        return False
+    starts = [p[0] for p in parts]
+    if strand == 1:
+        return any(a > b for a, b in zip(starts, starts[1:]))
+    if strand == -1:
+        return any(a < b for a, b in zip(starts, starts[1:]))
+    return starts != sorted(starts)
+
+
+def oracle_feature_key(location):
+    parts = [(int(p.start), int(p.end)) for p in location.parts]
+    strand = location.strand
+    length = sum(e - s for s, e in parts)
+    if not oracle_bridges(parts, strand):
+        return (min(s for s, _ in parts), length)
+    ordered = parts[::-1] if strand == -1 else parts      # transcription order -> coordinate order around the ring
+    head = [ordered[0]]
+    for part in ordered[1:]:
+        if part[0] > head[-1][0]:
+            head.append(part)
+        else:
+            break
+    return (min(s for s, _ in head) - max(e for _, e in head), length)
+
+
+def cds_keys(record):
+    return {cds.get_name(): oracle_feature_key(cds.location) for cds in record.get_cds_features()}
+
+
+def order_within_equal_keys(before, after, keys):
+    """ the two name lists differ only by rearranging CDS features whose sort keys are equal (class equal_key_genes_order) """
+    return sorted(before) == sorted(after) and len(before) == len(after) and \
+        all(keys.get(a) is not None and keys.get(a) == keys.get(b) for a, b in zip(before, after))
+
+
 def notes_of(feature):
     return sorted(list(feature.notes) + list(feature._qualifiers.get("note") or []))  # pylint: disable=protected-access
 
@@ -1067,8 +1284,24 @@ def describe_record(record):
         out[f"region {i + 1}"] = {"location": str(r.location),
                                  "candidates": [index_by_identity(cands, c) + 1 for c in r.candidate_clusters],
                                  "subregions": [index_by_identity(subs, s) + 1 for s in r.subregions]}
+    out["record"]["cds_order"] = [cds.get_name() for cds in record.get_cds_features()]
+    for i, r in enumerate(record.get_regions()):
+        out[f"region {i + 1}"]["cds_children"] = [cds.get_name() for cds in r.cds_children]
+    for i, src in enumerate(record.get_sources()):
+        out[f"source {i + 1}"] = {"location": str(src.location), "notes": notes_of(src),
+                                 "qualifiers": {k: v for k, v in src._qualifiers.items() if k != "note"}}  # pylint: disable=protected-access
+    for feature in record.get_generics():
+        uids = [note for note in notes_of(feature) if note.startswith("uid=")]
+        key = f"generic {feature.type} {uids[0] if uids else feature.location}"
+        out[key] = {"type": feature.type, "location": str(feature.location), "crosses_origin": feature.crosses_origin(),
+                    "parts": [(int(p.start), int(p.end), p.strand) for p in feature.location.parts],
+                    "operator": getattr(feature.location, "operator", None), "notes": notes_of(feature),
+                    "qualifiers": {k: v for k, v in feature._qualifiers.items() if k != "note"},  # pylint: disable=protected-access
+                    "created_by_antismash": feature.created_by_antismash}
     for cds in record.get_cds_features():
         out["CDS " + cds.get_name()] = {
+            "crosses_origin": cds.crosses_origin(),
+            "parts": [(int(p.start), int(p.end), p.strand) for p in cds.location.parts],
             "location": str(cds.location), "translation": cds.translation, "product": cds.product, "protein_id": cds.protein_id,
             "locus_tag": cds.locus_tag, "gene": cds.gene, "notes": notes_of(cds),
             "codon_start": cds._original_codon_start,  # pylint: disable=protected-access
@@ -1077,11 +1310,14 @@ def describe_record(record):
             "sec_met": [(d.name, d.evalue, d.bitscore, d.nseeds, d.tool) for d in (cds.sec_met or [])],
             "modules": [str(m.location) for m in cds.modules]}
     for g in record.get_genes():
-        out[f"gene {g.get_name()} {g.location}"] = {"location": str(g.location), "name": g.get_name(), "notes": notes_of(g)}
+        out[f"gene {g.get_name()} {g.location}"] = {"location": str(g.location), "name": g.get_name(), "notes": notes_of(g),
+                                                    "crosses_origin": g.crosses_origin(), "locus_tag": g.locus_tag,
+                                                    "gene_name": g.gene_name}
     for kind, items in (("PFAM_domain", record.get_pfam_domains()), ("aSDomain", record.get_antismash_domains()),
                         ("CDS_motif", record.get_cds_motifs())):
         for d in items:
-            entry = {"location": str(d.location), "protein_location": str(d.protein_location), "notes": notes_of(d)}
+            entry = {"location": str(d.location), "protein_location": str(d.protein_location), "notes": notes_of(d),
+                     "crosses_origin": d.crosses_origin()}
             for attr in ("locus_tag", "tool", "domain", "domain_id", "label", "identifier", "description", "version",
                          "specificity", "domain_subtypes"):
                 try:
@@ -1092,6 +1328,14 @@ def describe_record(record):
             if kind == "PFAM_domain":
                 # None (no ontologies) is not the same as an empty qualifier: the latter is written as gene_ontologies=[]
                 entry["gene_ontologies"] = None if d.gene_ontologies is None else dict(d.gene_ontologies.go_entries)
+            uids = [note for note in notes_of(d) if note.startswith("uid=")]
+            if type(d).__name__ == "ExternalCDSMotif" and uids:
+                # a CDS_motif that is not antiSMASH's own has no name in the file: Record.add_biopython_feature numbers such
+                # motifs per (start, end) in arrival order (non_aS_motif_<start>_<end>_<n>); the number is not written and is
+                # not part of the comparison, the feature is identified by the note the generator gave it
+                entry.pop("domain_id", None)
+                out[f"{kind} (external) {uids[0]}"] = entry
+                continue
             out[f"{kind} {d.get_name()}"] = entry
     for m in record.get_modules():
         out[f"module {m.location} {m.domains[0].get_name()}"] = {"location": str(m.location), "domains": [d.get_name() for d in m.domains],
@@ -1143,6 +1387,29 @@ def colon_function_only(diffs, built_desc):
     return bool(diffs)
 
 
+def canon_cds_name(entry):
+    """ the name of a written CDS feature (canon / bio_canon entry), None for other types """
+    if entry[0] != "CDS":
+        return None
+    for key in ("locus_tag", "protein_id", "gene"):
+        if entry[2].get(key):
+            return entry[2][key][0]
+    return None
+
+
+def order_only_within_equal_cds_keys(canon0, canon1, keys):
+    """ the second feature list is the first one with CDS features of equal sort keys rearranged, nothing else """
+    if len(canon0) != len(canon1) or sorted(map(repr, canon0)) != sorted(map(repr, canon1)):
+        return False
+    for a, b in zip(canon0, canon1):
+        if a == b:
+            continue
+        ka, kb = keys.get(canon_cds_name(a)), keys.get(canon_cds_name(b))
+        if ka is None or ka != kb:
+            return False
+    return True
+
+
 def has_note_overlap(record):
     """ a feature holding notes both in its leftover qualifiers and in .notes (Feature.to_biopython extends the former
         in place on every call) """
@@ -1162,6 +1429,7 @@ def first_write_stage(chk, built, counts, listed):
     if has_note_overlap(built):
         counts["records_with_leftover_and_added_notes"] += 1         # members of the repaired class C10-F61
     before = describe_record(built)
+    keys = cds_keys(built)          # Feature.__lt__'s sort key by an independent oracle, never by asking the implementation
     reread = None
     for path in ("genbank", "json"):
         problems = []          # (what, details, class or None)
@@ -1184,18 +1452,21 @@ def first_write_stage(chk, built, counts, listed):
                 cls = None
                 if colon_function_only([one], before):
                     cls = KNOWN_CLASS5
+                elif one[1] in ("cds_order", "cds_children") and order_within_equal_keys(one[2], one[3], keys):
+                    cls = KNOWN_CLASS3          # CDS features with equal (start, length) keys change places, nothing else
                 problems.append(("reloaded record differs field by field",
                                  (one[0], one[1], repr(one[2])[:300], repr(one[3])[:300]), cls))
             if len(canon0) != len(canon1):
                 problems.append(("second output differs from the first (not a fixed point)",
                                  ("feature count", len(canon0), len(canon1)), None))
+            swap_only = order_only_within_equal_cds_keys(canon0, canon1, keys)
             for a, b in zip(canon0, canon1):
                 if a == b:
                     continue
-                keys = sorted(k for k in set(a[2]) | set(b[2]) if a[2].get(k) != b[2].get(k))
+                qkeys = sorted(k for k in set(a[2]) | set(b[2]) if a[2].get(k) != b[2].get(k))
                 problems.append(("second output differs from the first (not a fixed point)",
-                                 (a[0], a[1], b[0], b[1], keys, [repr(a[2].get(k))[:120] for k in keys],
-                                  [repr(b[2].get(k))[:120] for k in keys]), None))
+                                 (a[0], a[1], b[0], b[1], qkeys, [repr(a[2].get(k))[:120] for k in qkeys],
+                                  [repr(b[2].get(k))[:120] for k in qkeys]), KNOWN_CLASS3 if swap_only else None))
         except RecursionError:
             areas = list(built.get_subregions()) + list(built.get_protoclusters())
             problems.append(("reload does not terminate (RecursionError)",
@@ -1215,9 +1486,6 @@ def first_write_stage(chk, built, counts, listed):
             older = None
             if listed.get(KNOWN_CLASS) and has_equal_key_areas(built):
                 older = KNOWN_CLASS
-            elif listed.get(KNOWN_CLASS3) and has_equal_key_genes(built) and \
-                    all(p[0].startswith("second output") for p in unexplained):
-                older = KNOWN_CLASS3
             elif listed.get(KNOWN_CLASS2) and has_mutually_less_areas(built):
                 older = KNOWN_CLASS2
             if older is not None:
@@ -1276,12 +1544,8 @@ def witness2_reproduces():
 
 
 def has_equal_key_genes(record):
-    genes = record.get_cds_features()
-    for i, a in enumerate(genes):
-        for b in genes[i + 1:]:
-            if not a < b and not b < a:
-                return True
-    return False
+    keys = list(cds_keys(record).values())
+    return len(set(keys)) != len(keys)
 
 
 def witness3_reproduces():
@@ -1381,7 +1645,7 @@ def whole_record_stream(chk, total, known_listed, known2_listed, known3_listed=F
             if ties and known_listed:
                 counts[path + "_differs_in_known_class_equal_key_areas"] += 1
                 continue
-            if known3_listed and has_equal_key_genes(record) and (order_only or problem[0].startswith("second output")):
+            if known3_listed and order_only and order_only_within_equal_cds_keys(d0, d1, cds_keys(record)):
                 counts[path + "_feature_order_differs_in_known_class_" + KNOWN_CLASS3] += 1
                 continue
             if known2_listed and has_mutually_less_areas(record):
@@ -1396,6 +1660,247 @@ def whole_record_stream(chk, total, known_listed, known2_listed, known3_listed=F
                       {"theorem_or_correspondence": "whole-record generator", "first_errors": setup_failures[:5]})
     for key, val in sorted(counts.items()):
         chk.count("whole_" + key, val)
+
+
+# ---------------------------------------------------------------- (e) read path of single features, CDS order
+
+READ_TYPES = {0: ["misc_feature"], 1: ["regulatory", "repeat_region", "tRNA", "rRNA", "mobile_element", "misc_RNA", "source",
+                                       "sig_peptide"], 2: ["gene"]}
+
+
+def make_loc(parts):
+    from antismash.common.secmet.locations import FeatureLocation as FL, CompoundLocation as CL
+    made = [FL(s, e, None if st == 2 else st) for s, e, st in parts]
+    return made[0] if len(made) == 1 else CL(made)
+
+
+def gen_read_parts(rng, n, circular):
+    """ parts [(start, end, strand code)] of a location as a GenBank file or the results JSON can hold it: the shapes of
+        gen_feature_location, plus exons inside other exons (what the NCBI-Pfam prefilter removes), three and more exons in
+        either order, shared ends, ends beyond the record, strand 0 / None / mixed """
+    strand = rng.choice([1, 1, -1, -1, -1, 0, 2])
+    location, _shape = gen_feature_location(rng, n, circular or rng.random() < 0.3, 1 if strand not in (1, -1) else strand)
+    parts = [(int(p.start), int(p.end), strand) for p in location.parts]
+    r = rng.random()
+    if r < 0.25 and len(parts) >= 2:
+        # a redundant exon inside an existing one (or covering one), anywhere in the list
+        s0, e0, _ = rng.choice(parts)
+        if e0 - s0 >= 3:
+            inner = (s0 + rng.choice([0, 1]), e0 - rng.choice([1, 2]), strand)
+            parts.insert(rng.randrange(len(parts) + 1), inner)
+    elif r < 0.35 and len(parts) >= 2:
+        parts.reverse()
+    elif r < 0.40 and len(parts) >= 2:
+        rng.shuffle(parts)
+    elif r < 0.44 and len(parts) >= 2:
+        i = rng.randrange(len(parts))
+        parts[i] = (parts[i][0], parts[i][1], -parts[i][2] if parts[i][2] in (1, -1) else 1)     # mixed strands
+    elif r < 0.47:
+        parts[-1] = (parts[-1][0], parts[-1][1] + n, parts[-1][2])                              # beyond the record
+    elif r < 0.50 and len(parts) >= 2:
+        parts[0] = (min(parts[0][0], parts[1][1] - 1), parts[1][1], parts[0][2])                # shared end
+    return [p for p in parts if 0 <= p[0] <= p[1]] or [(0, 1, 1)]
+
+
+def flat_parts(parts):
+    out = [len(parts)]
+    for p in parts:
+        out += list(p)
+    return out
+
+
+def impl_read_feature(n, circular, ty, type_name, parts):
+    from Bio.Seq import Seq
+    from Bio.SeqFeature import SeqFeature
+    from Bio.SeqRecord import SeqRecord
+    from antismash.common.secmet import Record
+    try:
+        bio = SeqRecord(Seq("A" * n), id="rec1", name="rec1")
+        bio.annotations["topology"] = "circular" if circular else "linear"
+        bio.annotations["molecule_type"] = "DNA"
+        quals = {"gene": ["x"]} if ty == 2 else {"note": ["n"]}
+        bio.features.append(SeqFeature(make_loc(parts), type=type_name, qualifiers=quals))
+        record = Record.from_biopython(bio, "bacteria")
+        held = list(record.get_genes()) + list(record.get_generics()) + list(record.get_sources())
+        return [0] + enc_loc(held[0].location)
+    except Exception as exc:  # pylint: disable=broad-except
+        return [1, err_code(exc)]
+
+
+def oracle_nested_free(parts):
+    for i, a in enumerate(parts):
+        for j, b in enumerate(parts):
+            if i != j and a[0] <= b[0] <= b[1] <= a[1]:
+                return False
+    return True
+
+
+def read_path_cases(chk, total):
+    """ fn 13 location_bridges_origin with / without allow_reversing (answer and the location afterwards); fn 14
+        Record.from_biopython on a record holding one feature (the location the record then holds); fn 15 CDS features added
+        one by one (the stored order).  The property is evaluated on the real code as well: a location without redundant
+        exons comes back unchanged, reading what was read changes nothing, re-adding the stored CDS list keeps its order. """
+    from antismash.common.secmet import Record
+    from antismash.common.secmet.features import CDSFeature
+    from antismash.common.secmet.locations import location_bridges_origin
+    rng = chk.rng
+    cases, outs = [], []
+    reported = {"read": 0, "idem": 0, "cds": 0}
+    corpus = [  # the seeded defect 6 and its neighbours: NCBI-style reverse-strand feature over the origin, every type
+        (600, True, ty, [(0, 40, -1), (550, 600, -1)]) for ty in (0, 1, 2)] + [
+        (600, True, 0, [(550, 600, 1), (0, 40, 1)]), (600, True, 0, [(550, 600, -1), (0, 40, -1)]),
+        (600, True, 0, [(60, 70, -1), (0, 40, -1), (550, 600, -1), (500, 520, -1)]),
+        (600, True, 0, [(550, 600, 1), (0, 40, 1), (10, 20, 1)]), (600, False, 2, [(100, 200, -1), (300, 400, -1)]),
+        (600, False, 0, [(100, 200, -1), (300, 400, -1)])]
+    for _ in range(total):
+        r = rng.random()
+        if corpus or r < 0.45:
+            if corpus:
+                n, circular, ty, parts = corpus.pop(0)
+                chk.count("read_corpus")
+            else:
+                n = rng.choice([300, 600, 1000])
+                circular = rng.random() < 0.6
+                ty = rng.choice([0, 0, 0, 1, 1, 2])
+                parts = gen_read_parts(rng, n, circular)
+            type_name = rng.choice(READ_TYPES[ty])
+            flat = [PROP, 14, n, int(circular), ty] + flat_parts(parts)
+            out = impl_read_feature(n, circular, ty, type_name, parts)
+            chk.count("read_feature_" + type_name)
+            if out[0] == 1:
+                chk.count("read_feature_error_" + common.ERR_NAME.get(out[1], str(out[1])))
+            else:
+                held = [tuple(out[2 + 3 * i:5 + 3 * i]) for i in range(out[1])]
+                writable = oracle_nested_free(parts) and not (ty == 2 and not circular and
+                                                              oracle_bridges(parts, parts[0][2] if len({p[2] for p in parts}) == 1 else 2))
+                if writable:
+                    chk.count("read_feature_writable_location")
+                if held != [tuple(p) for p in parts]:
+                    chk.count("read_feature_location_changed_on_reading")
+                    if writable and reported["read"] < 3:
+                        reported["read"] += 1
+                        chk.violation("counterexample", f"reading a {type_name} feature changes its location "
+                                      f"({'circular' if circular else 'linear'} record of {n}): {parts} -> {held}",
+                                      {"theorem_or_correspondence": "C10_read_keeps_location / Record.from_biopython", "function": 14,
+                                       "flat": flat, "implementation": out,
+                                       "input": {"record_length": n, "circular": circular, "type": type_name, "parts": parts},
+                                       "location_after_reading": held,
+                                       "text_before": str(make_loc(parts)), "text_after": str(make_loc(held))})
+                again = impl_read_feature(n, circular, ty, type_name, held)
+                if again != out and reported["idem"] < 3:
+                    reported["idem"] += 1
+                    chk.violation("counterexample", f"reading a {type_name} feature twice gives two different locations: "
+                                  f"{parts} -> {held} -> {again}",
+                                  {"theorem_or_correspondence": "Record.from_biopython is idempotent on locations", "function": 14,
+                                   "flat": flat, "implementation": out, "second_reading": again,
+                                   "input": {"record_length": n, "circular": circular, "type": type_name, "parts": parts}})
+            nontrivial = len(parts) > 1
+        elif r < 0.70:
+            n = rng.choice([300, 600])
+            parts = gen_read_parts(rng, n, rng.random() < 0.6)
+            allow = rng.random() < 0.5
+            flat = [PROP, 13, int(allow)] + flat_parts(parts)
+            try:
+                location = make_loc(parts)
+                answer = location_bridges_origin(location, allow_reversing=allow)
+                out = [int(answer)] + enc_loc(location)
+                if not allow and enc_loc(location) != flat_parts(parts) and reported["read"] < 3:
+                    reported["read"] += 1
+                    chk.violation("counterexample", "location_bridges_origin(allow_reversing=False) changed its argument",
+                                  {"theorem_or_correspondence": "C10_bridges_test_is_pure", "function": 13, "flat": flat,
+                                   "implementation": out, "input": {"parts": parts}})
+            except Exception as exc:  # pylint: disable=broad-except
+                out = [-1, err_code(exc)]
+            chk.count("bridges_origin_allow_reversing" if allow else "bridges_origin_plain")
+            if out[0] == 1:
+                chk.count("bridges_origin_true")
+            if out[0] >= 0 and out[1:] != flat_parts(parts):
+                chk.count("bridges_origin_reversed_in_place")
+            nontrivial = len(parts) > 1
+        else:
+            n = 3000
+            locs = gen_cds_set(rng, n)
+            flat = [PROP, 15, len(locs)] + [x for parts in locs for x in flat_parts(parts)]
+            stored = None
+            try:
+                record = Record("A" * n)
+                for i, parts in enumerate(locs):
+                    location = make_loc(parts)
+                    record.add_cds_feature(CDSFeature(location, translation="M" * max(1, len(location) // 3), locus_tag=f"c{i}"))
+                stored = [[(int(p.start), int(p.end), strand_code(p.strand)) for p in c.location.parts]
+                          for c in record.get_cds_features()]
+                out = [0, len(stored)] + [x for parts in stored for x in flat_parts(parts)]
+            except Exception as exc:  # pylint: disable=broad-except
+                out = [1, err_code(exc)]
+            chk.count("cds_order_lists")
+            if stored is not None:
+                keys = [oracle_feature_key(make_loc(parts)) for parts in stored]
+                if len(set(keys)) != len(keys):
+                    chk.count("cds_order_lists_with_equal_keys")
+                else:
+                    # the fixed point on the real code: re-adding the stored list in stored order keeps the order
+                    again = Record("A" * n)
+                    for i, parts in enumerate(stored):
+                        location = make_loc(parts)
+                        again.add_cds_feature(CDSFeature(location, translation="M" * max(1, len(location) // 3), locus_tag=f"c{i}"))
+                    back = [[(int(p.start), int(p.end), strand_code(p.strand)) for p in c.location.parts]
+                            for c in again.get_cds_features()]
+                    if back != stored and reported["cds"] < 3:
+                        reported["cds"] += 1
+                        chk.violation("counterexample", "CDS features with different (start, length) sort keys change places when "
+                                      f"the stored list is re-added in stored order: {stored} -> {back}",
+                                      {"theorem_or_correspondence": "C10_cds_order_kept / Record.add_cds_feature", "function": 15,
+                                       "flat": [PROP, 15, len(stored)] + [x for parts in stored for x in flat_parts(parts)],
+                                       "implementation": out, "input": {"cds_locations_in_arrival_order": locs},
+                                       "stored": stored, "stored_after_readding": back, "sort_keys": keys})
+            elif True:
+                chk.count("cds_order_error_" + common.ERR_NAME.get(out[1], str(out[1])))
+            nontrivial = len(locs) > 1
+        cases.append(flat)
+        outs.append(out)
+        chk.note_case(flat, nontrivial, {"function": flat[1], "payload": flat[2:40], "implementation": out[:40]})
+    return cases, outs
+
+
+def gen_cds_set(rng, n):
+    """ 2-6 CDS locations (parts lists): ordinary genes, alternative transcripts sharing start and end, origin-crossing genes,
+        genes with equal (start, length) keys, and now and then an exon order Feature.__lt__ refuses """
+    out = []
+    seen = set()
+
+    def add(parts):
+        key = tuple(parts)
+        if key not in seen and len({p[1] for p in parts}) == len(parts):
+            seen.add(key)
+            out.append(parts)
+    for _ in range(rng.choice([1, 2, 2, 3])):
+        strand = rng.choice([1, -1])
+        r = rng.random()
+        start = 3 * rng.randrange(0, (n - 400) // 3)
+        if r < 0.35:
+            add([(start, start + 3 * rng.randint(5, 40), strand)])
+        elif r < 0.75:
+            first, last = (start, start + 3 * rng.randint(3, 8)), (start + 150, start + 150 + 3 * rng.randint(3, 8))
+            variants = [[first, (start + 60, start + 90), last], [first, last], [first, (start + 60, start + 75), (start + 105, start + 120), last],
+                        [first, (start + 90, start + 123), last], [first, (start + 93, start + 123), last]]
+            rng.shuffle(variants)
+            for exons in variants[:rng.choice([2, 2, 3])]:
+                parts = [(s, e, strand) for s, e in exons]
+                add(parts[::-1] if strand == -1 else parts)
+        elif r < 0.92:
+            a, b = 3 * rng.randint(14, 30), 3 * rng.randint(4, 12)
+            first, last_pre = (n - a, n - a + 12), (n - 9, n)
+            variants = [[first, (n - a + 18, n - a + 24), last_pre, (0, b)], [first, last_pre, (0, b)], [(n - a, n), (0, b)],
+                        [(n - a, n), (0, b + 3)]]
+            rng.shuffle(variants)
+            for exons in variants[:rng.choice([1, 2, 3])]:
+                parts = [(s, e, strand) for s, e in exons]
+                add(parts[::-1] if strand == -1 else parts)
+        else:
+            add([(start + 200, start + 230, 1), (start + 100, start + 130, 1), (start, start + 30, 1)])     # refused order
+            add([(start, start + 30, -strand)])
+    rng.shuffle(out)
+    return out[:6]
 
 
 # ---------------------------------------------------------------- known finding
@@ -1503,6 +2008,29 @@ def witness8_reproduces():
     return reloaded.get_pfam_domains()[0].gene_ontologies is not None or dict(first.qualifiers) != dict(second.qualifiers)
 
 
+KNOWN_CLASS9 = "unsortable_exon_order_accepted"      # C10-F65
+
+
+def witness9_reproduces():
+    """ a forward-strand misc_feature join(401..430,201..230,101..130) is accepted by Record.from_biopython, after which the
+        record cannot be written: Feature.__lt__ raises ValueError inside sorted(all_features) """
+    from Bio.Seq import Seq
+    from Bio.SeqFeature import SeqFeature
+    from Bio.SeqRecord import SeqRecord
+    from antismash.common.secmet import Record
+    bio = SeqRecord(Seq("ACGT" * 150), id="rec", name="rec")
+    bio.annotations["topology"] = "linear"
+    bio.annotations["molecule_type"] = "DNA"
+    bio.features.append(SeqFeature(make_loc([(400, 430, 1), (200, 230, 1), (100, 130, 1)]), type="misc_feature"))
+    bio.features.append(SeqFeature(make_loc([(9, 20, 1)]), type="misc_feature"))
+    record = Record.from_biopython(bio, "bacteria")
+    try:
+        record.to_biopython()
+    except ValueError:
+        return True
+    return False
+
+
 # regression corpus, run first on every run: the recorded witnesses of the repaired findings (known_findings.json, status
 # fixed).  Each function returns True when the defective behaviour is back.
 REGRESSION_CORPUS = [("C10-F62", REPAIRED_CLASS4, witness4_reproduces), ("C10-F60", REPAIRED_CLASS6, witness6_reproduces),
@@ -1551,7 +2079,19 @@ RULE = ("(a) codec: text locations with all three position kinds, four strand sp
         "eight sideloaded tool names starting with 'externally annotated' in the aStool stream; the generators keep "
         "producing members of those classes (sideloaded tool names with the prefix, genes with leftover /note plus added "
         "notes, PFAM domains with and without gene ontologies, sideloaded protoclusters) and nothing is suppressed for them; "
-        "only the tool name of an ORDINARY area with that prefix (no antiSMASH module has one) is outside the quantifier.")
+        "only the tool name of an ORDINARY area with that prefix (no antiSMASH module has one) is outside the quantifier.  "
+        "Every whole record also carries 2-6 generic features (misc_feature incl. NCBI-Pfam-like, regulatory, mobile_element, "
+        "repeat_region, tRNA, rRNA, ncRNA, misc_RNA, sig_peptide, stem_loop, rep_origin, misc_binding, external CDS_motif, gene) and "
+        "0-2 source features, on both strands, single / multi-exon in either exon order / over the origin (circular) as NCBI and "
+        "antiSMASH write it, some sharing their location with a CDS or another feature, and in a third of the records 2-3 "
+        "alternative transcripts (CDS sharing first-exon start and last-exon end, also over the origin); compared: parts in order, "
+        "strands, crosses_origin, qualifiers, CDS order of the record and of each region; an order-only difference is excused as "
+        "equal_key_genes_order only between CDS features whose (start, length) keys - computed by the harness, not by the "
+        "implementation - are equal.  (e) read path against the model: location_bridges_origin with and without allow_reversing "
+        "(answer and location afterwards), Record.from_biopython on one-feature records (misc_feature / other generic / gene; "
+        "linear and circular; nested exons, shuffled and reversed exon orders, mixed / missing strands, shared ends, ends beyond "
+        "the record), CDS features added one by one (alternative transcripts, origin-crossing genes, equal keys, refused exon "
+        "orders); non-trivial = more than one part / more than one CDS.")
 
 
 def run(chk):
@@ -1578,6 +2118,13 @@ def run(chk):
     q_model = common.correspondence(chk, q_cases, q_outs, describe=lambda flat: {"function": flat[1], "payload": flat[2:]},
                                     label="qualifier codecs (aStool, gene function text, _parse_format, number lists)")
     chk.crosscheck_vm(q_cases, q_model, k=60 if quick else 400)
+
+    # (e) read path of single features (the misc_feature prefilter, add_gene's exon order) and the order of CDS features
+    r_cases, r_outs = read_path_cases(chk, 3000 if quick else 40000)
+    r_model = common.correspondence(chk, r_cases, r_outs, spec_fn_offset=100,
+                                    describe=lambda flat: {"function": flat[1], "payload": flat[2:]},
+                                    label="feature locations through Record.from_biopython / CDS order through add_cds_feature")
+    chk.crosscheck_vm(r_cases, r_model, k=60 if quick else 400)
 
     # (b) skeletons
     total = 6000 if quick else 60000
@@ -1679,6 +2226,11 @@ def run(chk):
         chk.known(entry3["what_fails"])
     if entry5 is not None and reproduces(witness5_reproduces):
         chk.known(entry5["what_fails"])
+    entry9 = known_entry(KNOWN_CLASS9)
+    if entry9 is not None and reproduces(witness9_reproduces):
+        # nothing is suppressed for this class: the whole-record generator keeps out of it (generator rule (xi)), the CDS
+        # order stream compares the ValueError with the model's
+        chk.known(entry9["what_fails"])
     chk.extra["not_modelled"] = ("Biopython GenBank writer/reader (line wrapping, header), orjson, qualifier codecs of gene-level "
                                  "features: covered by the whole-record stream only")
     return chk.finish(RULE, trusted_extra=("Biopython 1.81 SeqIO GenBank writer/reader and orjson are exercised, not modelled",))
